@@ -19,7 +19,8 @@ EChoices == SeqsUpTo(ETokAll, 2) \cup {s \in SeqsUpTo(ETokSmall, IF Deep THEN 4 
             \cup (IF Deep THEN {s \in SeqsUpTo({"x", "u", "entity", "f2", "g(1)", "n"}, 3) : Len(s) = 3} ELSE {})
 BFChoices == {<<>>, <<"b1">>, <<"b1", "trim">>, <<"n", "b1">>}
 ESmall == SeqsUpTo({"h", "f1", "trim", "n"}, 2)
-It(c, e) == [c |-> c, E |-> e]
+It(c, e) == [c |-> c, E |-> e, s |-> "body"]
+At(c, e, st) == [c |-> c, E |-> e, s |-> st]
 One(c, d, p, e, b) == [D |-> d, P |-> p, BF |-> b, items |-> <<It(c, e)>>, items2 |-> <<>>]
 Single ==
   {One("expr", d, p, e, <<>>) : d \in DChoices, p \in PChoices, e \in EChoices}
@@ -49,7 +50,21 @@ Several ==
   {[D |-> d, P |-> p, BF |-> b, items |-> s, items2 |-> t] :
      d \in {Absent, <<>>, <<"d1">>, <<"str", "d1">>}, p \in {Absent, <<"p1">>, <<"p1", "p2">>, <<"n", "p1">>, <<"x">>},
      b \in (IF Deep THEN {<<>>, <<"b1">>} ELSE {<<"b1">>}), s \in ItemSeqs, t \in Second}
-Configs == Single \cup Several \cup Calls
+\* the SITE dimension: the same construct at every place of a template a ${ } / filter= / buffered def can stand
+Sites == {"body", "topdef", "nesteddef", "namedblock", "blockinblock", "anonblock", "callbody", "nsdef", "inherited", "include"}
+SiteE == {<<>>, <<"f1">>, <<"n">>, <<"h", "f1">>, <<"n", "f1">>}
+SiteP == {Absent, <<"p1">>, <<"p1", "p2">>, <<"n", "p1">>, <<"x">>}
+Sited ==
+  {[D |-> d, P |-> p, BF |-> <<>>, items |-> <<At("expr", e, st)>>, items2 |-> <<>>] :
+     d \in {Absent, <<"d1">>, <<"str", "d1">>}, p \in SiteP, e \in SiteE, st \in Sites}
+  \cup {[D |-> d, P |-> p, BF |-> <<"b1">>, items |-> <<At(c, e, st)>>, items2 |-> <<>>] :
+     c \in {"bufdef", "text", "def"}, d \in {Absent, <<"d1">>}, p \in {<<"p1">>, <<"n", "p1">>}, e \in {<<>>, <<"f1">>},
+     st \in {"topdef", "namedblock", "anonblock", "callbody", "nsdef"}}
+  \* one template whose expressions stand at different sites: all of them get the same pipeline
+  \cup {[D |-> d, P |-> p, BF |-> <<>>, items |-> <<At("expr", <<>>, "body"), At("expr", e, st), At("expr", <<"f1">>, st2)>>, items2 |-> <<>>] :
+     d \in {Absent, <<"d1">>}, p \in {<<"p1">>, <<"n", "p1">>, <<"x">>}, e \in {<<>>, <<"n">>},
+     st \in Sites \ {"inherited", "include"}, st2 \in {"topdef", "namedblock", "callbody"}}
+Configs == Single \cup Several \cup Calls \cup Sited
 MCInit == \E c \in Configs : FInit(c)
 MCSpec == MCInit /\ [][FNext]_fvars
 PrintTerminal == ~(phase = "done" /\ PrintT(ToJson([cfg |-> cfg, apps |-> apps])) /\ FALSE)
